@@ -151,6 +151,13 @@ def genpos_case(rng, i):
     return dict(S=S2, O=[], C=C2, kind='genpos:%s/%s' % kinds, regime=name, geom='genpos')
 
 
+def flat_case(rng, i):
+    """nearly horizontal edges crossed a fraction of a unit from a scanline carrying another vertex (the out-of-scanbeam
+    repair of AddNewIntersectNode: TopX / GetClosestPointOnSegment branches); general position is decided by the Coq predicate"""
+    S, C, kinds = polys.gen_flat_precise_case(rng) if i % 3 else polys.gen_flat_case(rng)
+    return dict(S=S, O=[], C=C, kind='genpos:%s/%s' % kinds, regime='flat', geom='genpos')
+
+
 def synthetic_ring(rng):
     n = rng.range(1, 14) if not rng.chance(1, 10) else rng.range(15, 60)
     box = rng.choice([2, 3, 5, 8, 20, 1000, 2 ** 40, 2 ** 60])
@@ -801,6 +808,9 @@ def run(ctx):
     phase_stream(ctx, env, nasty, 'nasty', combos_per_case=4, builds=('plain', 'hi'))
     gp = filter_genpos(ctx, env, [genpos_case(rng, i) for i in range(70 * mul)])
     phase_stream(ctx, env, gp, 'genpos', builds=('plain', 'hi'))
+    frng = ctx.rng.fork(3)
+    flat = filter_genpos(ctx, env, [c for c in (flat_case(frng, i) for i in range(500 * mul)) if maxabs_case(c) < (1 << 40)])
+    phase_stream(ctx, env, flat, 'flat', builds=('plain', 'hi'))
     rect = [rectilinear_case(rng) for _ in range(150 * mul)]
     phase_stream(ctx, env, rect, 'rectilinear', builds=('plain', 'hi'))
     for c in (nasty[:1] + gp[:1] + rect[:2]):
